@@ -203,10 +203,13 @@ struct AnalyserInternalEquation
     static bool hasNonConstantVariables(const AnalyserInternalVariablePtrs &variables);
     bool hasNonConstantVariables();
 
-    bool variableOnLhsRhs(const AnalyserInternalVariablePtr &variable,
+    bool variableOnLhsRhs(const AnalyserModelPtr &model,
+                          const AnalyserInternalVariablePtr &variable,
                           const AnalyserEquationAstPtr &astChild);
-    bool variableOnRhs(const AnalyserInternalVariablePtr &variable);
-    bool variableOnLhsOrRhs(const AnalyserInternalVariablePtr &variable);
+    bool variableOnRhs(const AnalyserModelPtr &model,
+                       const AnalyserInternalVariablePtr &variable);
+    bool variableOnLhsOrRhs(const AnalyserModelPtr &model,
+                            const AnalyserInternalVariablePtr &variable);
 
     bool check(const AnalyserModelPtr &model, size_t &stateIndex, size_t &variableIndex, bool checkNlaSystems);
 };
@@ -296,9 +299,14 @@ bool AnalyserInternalEquation::hasNonConstantVariables()
     return hasNonConstantVariables(mVariables) || hasNonConstantVariables(mOdeVariables);
 }
 
-bool AnalyserInternalEquation::variableOnLhsRhs(const AnalyserInternalVariablePtr &variable,
+bool AnalyserInternalEquation::variableOnLhsRhs(const AnalyserModelPtr &model,
+                                                const AnalyserInternalVariablePtr &variable,
                                                 const AnalyserEquationAstPtr &astChild)
 {
+    // Note: the variable in the equation and the variable that stands for its
+    //       equivalence class may be in different components and may therefore
+    //       have different names.
+
     switch (astChild->type()) {
     case AnalyserEquationAst::Type::CI:
         // Note: what an equation computes for a state is its rate, so a state
@@ -306,23 +314,25 @@ bool AnalyserInternalEquation::variableOnLhsRhs(const AnalyserInternalVariablePt
         //       dx/dt = x).
 
         return (variable->mType != AnalyserInternalVariable::Type::STATE)
-               && (astChild->variable()->name() == variable->mVariable->name());
+               && model->areEquivalentVariables(astChild->variable(), variable->mVariable);
     case AnalyserEquationAst::Type::DIFF:
-        return astChild->rightChild()->variable()->name() == variable->mVariable->name();
+        return model->areEquivalentVariables(astChild->rightChild()->variable(), variable->mVariable);
     default:
         return false;
     }
 }
 
-bool AnalyserInternalEquation::variableOnRhs(const AnalyserInternalVariablePtr &variable)
+bool AnalyserInternalEquation::variableOnRhs(const AnalyserModelPtr &model,
+                                             const AnalyserInternalVariablePtr &variable)
 {
-    return variableOnLhsRhs(variable, mAst->rightChild());
+    return variableOnLhsRhs(model, variable, mAst->rightChild());
 }
 
-bool AnalyserInternalEquation::variableOnLhsOrRhs(const AnalyserInternalVariablePtr &variable)
+bool AnalyserInternalEquation::variableOnLhsOrRhs(const AnalyserModelPtr &model,
+                                                  const AnalyserInternalVariablePtr &variable)
 {
-    return variableOnLhsRhs(variable, mAst->leftChild())
-           || variableOnRhs(variable);
+    return variableOnLhsRhs(model, variable, mAst->leftChild())
+           || variableOnRhs(model, variable);
 }
 
 bool AnalyserInternalEquation::check(const AnalyserModelPtr &model,
@@ -408,7 +418,7 @@ bool AnalyserInternalEquation::check(const AnalyserModelPtr &model,
                                    nullptr;
 
     if (((unknownVariableLeft != nullptr)
-         && (checkNlaSystems || variableOnLhsOrRhs(unknownVariableLeft)))
+         && (checkNlaSystems || variableOnLhsOrRhs(model, unknownVariableLeft)))
         || !initialisedVariables.empty()) {
         auto variables = mVariables.empty() ?
                              mOdeVariables.empty() ?
@@ -458,7 +468,7 @@ bool AnalyserInternalEquation::check(const AnalyserModelPtr &model,
         //       be solved as an NLA equation.
 
         if ((unknownVariableLeft == nullptr)
-            || !variableOnLhsOrRhs(unknownVariableLeft)) {
+            || !variableOnLhsOrRhs(model, unknownVariableLeft)) {
             mType = Type::NLA;
         } else {
             switch (unknownVariableLeft->mType) {
@@ -3250,7 +3260,7 @@ void Analyser::AnalyserImpl::analyseModel(const ModelPtr &model)
 
         if ((type != AnalyserEquation::Type::NLA)
             && (type != AnalyserEquation::Type::EXTERNAL)
-            && internalEquation->variableOnRhs(internalEquation->mUnknownVariables.front())) {
+            && internalEquation->variableOnRhs(mModel, internalEquation->mUnknownVariables.front())) {
             internalEquation->mAst->swapLeftAndRightChildren();
         }
 
